@@ -36,8 +36,11 @@ def run(ctx: Ctx):
         seq += [dict(seed=s_, opts=dict(speed=4.0, scheme=["RK4", "RK2"][k % 2], layout="sparse", kills=False, nsteps=6, land=False, subgrid="none"),
                      diffusion=0.0, vertdiff=0.0) for s_ in seconds[:3]]
         seq_jobs.append(seq)
+    # releases given by longitude/latitude on loaded windows with (very) different offsets in x and y
+    lonlat_jobs = [dict(seed=ctx.seed * 1000 + 170 + k, dx=[4000.0, 800.0][k % 2], subgrid=[[12, 38, 2, 20], [2, 30, 9, 28], [20, 38, 2, 20]][k % 3])
+                   for k in range(12 if ctx.thorough else 3)]
     env = dict(os.environ, NUMBA_BOUNDSCHECK="1", LADIM_REPO=str(REPO))
-    p = subprocess.run([sys.executable, "-m", "harness.bounds_worker"], input=json.dumps(dict(scen=scen_jobs, kernel=kernel_jobs, seq=seq_jobs)),
+    p = subprocess.run([sys.executable, "-m", "harness.bounds_worker"], input=json.dumps(dict(scen=scen_jobs, kernel=kernel_jobs, seq=seq_jobs, lonlat=lonlat_jobs)),
                        capture_output=True, text=True, env=env, cwd="/verif", timeout=3000)
     if "@@RESULT@@" not in p.stdout:
         raise MachineryError("bounds worker failed: " + p.stderr[-2000:])
@@ -60,6 +63,13 @@ def run(ctx: Ctx):
                               dict(status=g["status"], position_in_sequence=n_, theorem="Ladim.C17.sampleVel_in_bounds / advect_in_bounds (for the grid of the run itself)"),
                               tags=dict(first="IndexError" if "IndexError" in g["status"] else "status", N=g["brief"]["N"]))
                 break
+    for job, g in zip(lonlat_jobs, res["lonlat"]):
+        ctx.case("bounds-checked lon/lat release", [job["seed"], str(job["subgrid"])], sample=dict(job=job, status=g["status"]), nontrivial=True)
+        if g["status"] != "ok":
+            kind = "failing-input" if "IndexError" in str(g["status"]) else "tie-broken"
+            ctx.violation(kind, "bounds-checked lon/lat release", dict(job=job), dict(status=g["status"],
+                          theorem="Ladim.C17.sampleVel_in_bounds / z2s_in_bounds (positions of a release lie in the loaded window)"),
+                          tags=dict(first="IndexError" if "IndexError" in str(g["status"]) else "status", N=2))
     for job, g in zip(kernel_jobs, res["kernel"]):
         ctx.case("bounds-checked kernels", [job["seed"], job["N"]], sample=dict(job=job, result=g))
         ctx.count("kernel:N=%d" % job["N"])
